@@ -2112,3 +2112,9 @@ def m_identity(ex, c, args):
 @model("RangeInclusive::new")
 def m_range_incl_new(ex, c, args):
     return Adt("RangeInclusive", 0, (args[0], args[1], False))
+
+
+@model("Not::not")
+def m_not_trait(ex, c, args):
+    v = rda(args[0])
+    return ex.not_(v)
